@@ -18,6 +18,7 @@ pub trait Adapter {
     #[doc(hidden)]
     fn verif_loop_state(
         &mut self, _kept: &[u8], _proc_offset: usize, _read_offset: usize, _res_len: usize,
+        _discarding: bool,
     ) {
     }
 }
@@ -206,7 +207,7 @@ pub trait Interface: ErrorHandler {
     
         loop {
             #[cfg(microscpi_verif)]
-            adapter.verif_loop_state(&cmd_buf[..read_offset], proc_offset, read_offset, res_buf.len());
+            adapter.verif_loop_state(&cmd_buf[..read_offset], proc_offset, read_offset, res_buf.len(), discarding);
 
             let count = adapter.read(&mut cmd_buf[read_offset..]).await?;
             let read_end = read_offset + count;
